@@ -69,6 +69,8 @@ def run(chk: Check, ctx: Any) -> None:
         "label after every op; (R3) labels are global to the file, bind to the next op and are printed directly before the op whose offset they "
         "carry; (R4) neither side reorders ops or routines; (R5) the resolver removes exactly the parameter at the table index on a copy, and "
         "locates the routine of a target with comparisons that agree with the inclusive end-offset table. String/number values are C04."
+        " (R6, interpreter-based) the SsbScript decompiler and compiler are evaluated on hand-made routine sets and on compiled families: ops, parameters, rout"
+        "ine table and jump targets come back unchanged."
     )
     chk.rule("C07-R6", "SsbScriptSsbDecompiler.convert and SsbScriptSsbCompiler.compile interpreted: hand-made routine sets (every parameter kind, arbitrary opcode names, unreachable ops, jumps between routines in both directions, alias routines, coroutines, targeted routines, offset gaps) and compiled program families come back op for op with equal parameters, routine table and jump targets; the input is not modified")
     chk.rule("C07-R1", "SsbScript print templates parse under the grammar; holes sit on the tokens the listener reads; kind words round-trip")
